@@ -197,7 +197,7 @@ impl<TC: HasRef> RealTree<TC> {
         project_tree(&self.db.all_records().await, t)
     }
 
-    fn lab_json(&self, l: &NodeLabel) -> Value {
+    pub fn lab_json(&self, l: &NodeLabel) -> Value {
         if *l == TC::empty_label() {
             return json!([3]);
         }
@@ -263,7 +263,7 @@ impl<TC: HasRef> RealTree<TC> {
 
     // ---------------------------------------------------------------- proofs
 
-    fn elem_of(&self, n: &Option<TreeNode>) -> AzksElement {
+    pub fn elem_of(&self, n: &Option<TreeNode>) -> AzksElement {
         match n {
             None => AzksElement { label: TC::empty_label(), value: TC::empty_node_hash() },
             Some(n) => AzksElement {
@@ -485,6 +485,130 @@ impl<TC: HasRef> RealTree<TC> {
     }
 }
 
+/// Auditor-style rebuild (what verify_append_only_hash does): returns (root hash, labels of the leaf-typed nodes)
+async fn auditor_rebuild<TC: HasRef>(st: &Stretch, elems: Vec<AzksElement>, latest_epoch: Option<u64>) -> Result<(Digest, Vec<NodeLabel>), String> {
+    let db = HookDb::new();
+    let manager = StorageManager::new_no_cache(db.clone());
+    let mut azks = Azks::new::<TC, _>(&manager).await.map_err(|e| format!("{e}"))?;
+    if let Some(e) = latest_epoch {
+        azks.latest_epoch = e;
+    }
+    azks.batch_insert_nodes::<TC, _>(&manager, elems, InsertMode::Auditor, AzksParallelismConfig::default())
+        .await
+        .map_err(|e| format!("{e}"))?;
+    let h = azks.get_root_hash::<TC, _>(&manager).await.map_err(|e| format!("{e}"))?;
+    let nodes = project_tree(&db.all_records().await, azks.latest_epoch)?;
+    let _ = st;
+    Ok((h, nodes.iter().filter(|n| n.node_type == TreeNodeType::Leaf).map(|n| n.label).collect()))
+}
+
+fn subsets_upto<T: Clone>(items: &[T], k: usize) -> Vec<Vec<T>> {
+    let mut out: Vec<Vec<T>> = vec![vec![]];
+    let n = items.len();
+    if k >= 1 {
+        for i in 0..n {
+            out.push(vec![items[i].clone()]);
+        }
+    }
+    if k >= 2 {
+        for i in 0..n {
+            for j in (i + 1)..n {
+                out.push(vec![items[i].clone(), items[j].clone()]);
+            }
+        }
+    }
+    if k >= 3 {
+        for i in 0..n {
+            for j in (i + 1)..n {
+                for l in (j + 1)..n {
+                    out.push(vec![items[i].clone(), items[j].clone(), items[l].clone()]);
+                }
+            }
+        }
+    }
+    out
+}
+
+impl<TC: HasRef> RealTree<TC> {
+    /// C09: the adversarial server against the real auditor. Candidates exactly as AkdTrie!AuditSoundAt.
+    pub async fn auditor_events(&self, tr: &mut Tracer, max_u: usize, max_i: usize) {
+        let t = self.azks.latest_epoch;
+        let end = t + 1;
+        let hs = match self.root_hash().await {
+            Some(h) => h,
+            None => {
+                tr.emit(json!({"ev": "error", "what": "no root"}));
+                return;
+            }
+        };
+        let nodes = self.nodes_at(t).await.unwrap_or_default();
+        let non_root: Vec<TreeNode> = nodes.iter().filter(|n| n.label.label_len > 0).cloned().collect();
+        // all labels of length 1..D with values {1,2}
+        let mut ins_pool: Vec<(Vec<u8>, u64)> = vec![];
+        for len in 1..=self.st.d {
+            for i in 0..(1u32 << len) {
+                let bits: Vec<u8> = (0..len).map(|b| ((i >> (len - 1 - b)) & 1) as u8).collect();
+                for v in [1u64, 2u64] {
+                    ins_pool.push((bits.clone(), v));
+                }
+            }
+        }
+        let ins_choices = subsets_upto(&ins_pool, max_i);
+        let mut cands = vec![];
+        let mut tried = 0u64;
+        for u in subsets_upto(&non_root, max_u) {
+            let u_elems: Vec<AzksElement> = u.iter().map(|n| self.elem_of(&Some(n.clone()))).collect();
+            let u_json: Vec<Value> = u.iter().map(|n| self.lab_json(&n.label)).collect();
+            let start_ok = match auditor_rebuild::<TC>(&self.st, u_elems.clone(), None).await {
+                Ok((h, _)) => h == hs,
+                Err(_) => false,
+            };
+            let choices: Vec<Vec<(Vec<u8>, u64)>> = if start_ok { ins_choices.clone() } else { vec![vec![]] };
+            for ins in choices {
+                tried += 1;
+                let i_elems: Vec<AzksElement> = ins.iter().map(|(b, v)| AzksElement { label: self.st.to_real(b), value: real_value(*v) }).collect();
+                let mut end_set = u_elems.clone();
+                end_set.extend(i_elems.iter().map(|x| AzksElement { label: x.label, value: AzksValue(TC::hash_leaf_with_commitment(x.value, end).0) }));
+                let (he, survive) = match auditor_rebuild::<TC>(&self.st, end_set, Some(end - 1)).await {
+                    Ok(x) => x,
+                    Err(e) => {
+                        cands.push(json!({"u": u_json, "i": ins, "start_ok": start_ok, "verdict": false, "survive": [], "err": e}));
+                        continue;
+                    }
+                };
+                let proof = SingleAppendOnlyProof { inserted: i_elems, unchanged_nodes: u_elems.clone() };
+                let verdict = akd::auditor::verify_consecutive_append_only::<TC>(&proof, hs, he, end).await.is_ok();
+                let sv: Vec<Value> = survive.iter().map(|l| self.lab_json(l)).collect();
+                let ij: Vec<Value> = ins.iter().map(|(b, v)| json!([b, v])).collect();
+                if start_ok {
+                    cands.push(json!({"u": u_json, "i": ij, "start_ok": true, "verdict": verdict, "survive": sv}));
+                } else {
+                    cands.push(json!({"u": u_json, "i": ij, "start_ok": false, "verdict": verdict, "survive": []}));
+                }
+            }
+        }
+        // a proof that lists an element twice: the honest cut (children of the root) with one element repeated
+        let root = nodes.iter().find(|n| n.label.label_len == 0).cloned();
+        let mut dup_verdict = "n/a".to_string();
+        if let Some(r) = root {
+            let mut cut: Vec<AzksElement> = vec![];
+            for c in [r.left_child, r.right_child].into_iter().flatten() {
+                if let Some(n) = nodes.iter().find(|n| n.label == c) {
+                    cut.push(self.elem_of(&Some(n.clone())));
+                }
+            }
+            if !cut.is_empty() {
+                let mut dup = cut.clone();
+                dup.push(cut[0]);
+                let he = auditor_rebuild::<TC>(&self.st, dup.clone(), Some(end - 1)).await.map(|x| x.0).unwrap_or([0u8; 32]);
+                let proof = SingleAppendOnlyProof { inserted: vec![], unchanged_nodes: dup };
+                dup_verdict = format!("{}", akd::auditor::verify_consecutive_append_only::<TC>(&proof, hs, he, end).await.is_ok());
+            }
+        }
+        tr.emit(json!({"ev": "auditor", "max_u": max_u, "max_i": max_i, "cands": cands, "tried": tried, "dup_verdict": dup_verdict}));
+    }
+}
+
 /// One behaviour: {"cfg","stretch","assign":[[bits,val,ep]..],"mode":"dir"|"aud","par","do":["tree","mem","nonmem","audit"], "split": optional}
 pub async fn run_trie<TC: HasRef>(b: &Value, tr: &mut Tracer) {
     let st = Stretch::from_json(&b["stretch"]);
@@ -540,6 +664,9 @@ pub async fn run_trie<TC: HasRef>(b: &Value, tr: &mut Tracer) {
     }
     if wants("audit") {
         tree.audit_events(tr).await;
+    }
+    if wants("auditor") {
+        tree.auditor_events(tr, b["max_u"].as_u64().unwrap_or(3) as usize, b["max_i"].as_u64().unwrap_or(1) as usize).await;
     }
 }
 
